@@ -1,6 +1,7 @@
 package main
 
 import (
+	"math"
 	"sort"
 	"bufio"
 	"fmt"
@@ -700,6 +701,61 @@ func SExt(a *Term, w int) *Term {
 	}
 	return mk(&Term{Op: "sext", W: w, Args: []*Term{a}})
 }
+// FP builds an IEEE-754 binary64 operation. Float values are carried as their 64-bit IEEE bit patterns (W=64);
+// predicates have W=0. Constant arguments are folded with Go's own float64 arithmetic (the platform the code runs on);
+// symbolic ones are handed to the solver's FloatingPoint theory (round-nearest-even for arithmetic, toward zero for
+// float->int, as Go does).
+func FP(name string, w int, args ...*Term) *Term {
+	all := true
+	for _, a := range args {
+		if !a.IsConst() {
+			all = false
+		}
+	}
+	if all {
+		f := func(i int) float64 { return math.Float64frombits(args[i].C.Uint64()) }
+		fb := func(x float64) *Term { return BVu(math.Float64bits(x), 64) }
+		switch name {
+		case "fp.add":
+			return fb(f(0) + f(1))
+		case "fp.sub":
+			return fb(f(0) - f(1))
+		case "fp.mul":
+			return fb(f(0) * f(1))
+		case "fp.div":
+			return fb(f(0) / f(1))
+		case "fp.neg":
+			return fb(-f(0))
+		case "fp.abs":
+			return fb(math.Abs(f(0)))
+		case "fp.sqrt":
+			return fb(math.Sqrt(f(0)))
+		case "fp.floor":
+			return fb(math.Floor(f(0)))
+		case "fp.ceil":
+			return fb(math.Ceil(f(0)))
+		case "fp.trunc":
+			return fb(math.Trunc(f(0)))
+		case "fp.u2f":
+			return fb(float64(args[0].C.Uint64()))
+		case "fp.s2f":
+			return fb(float64(int64(args[0].C.Uint64())))
+		case "fp.f2u":
+			return BVu(uint64(f(0)), 64)
+		case "fp.f2s":
+			return BVu(uint64(int64(f(0))), 64)
+		case "fp.lt":
+			return Bool(f(0) < f(1))
+		case "fp.le":
+			return Bool(f(0) <= f(1))
+		case "fp.eq":
+			return Bool(f(0) == f(1))
+		}
+		panic("FP fold " + name)
+	}
+	return mk(&Term{Op: "fp", Name: name, W: w, Args: args})
+}
+
 func UF(name string, w int, args ...*Term) *Term {
 	return mk(&Term{Op: "uf", Name: name, W: w, Args: args})
 }
@@ -792,6 +848,38 @@ func (s *Solver) ref(t *Term) string {
 			e = fmt.Sprintf("((_ zero_extend %d) %s)", t.W-t.Args[0].W, parts[0])
 		case "sext":
 			e = fmt.Sprintf("((_ sign_extend %d) %s)", t.W-t.Args[0].W, parts[0])
+		case "fp":
+			fpv := func(x string) string { return "((_ to_fp 11 53) " + x + ")" }
+			switch t.Name {
+			case "fp.add", "fp.sub", "fp.mul", "fp.div":
+				e = fmt.Sprintf("(fp.to_ieee_bv (%s RNE %s %s))", t.Name, fpv(parts[0]), fpv(parts[1]))
+			case "fp.sqrt":
+				e = fmt.Sprintf("(fp.to_ieee_bv (fp.sqrt RNE %s))", fpv(parts[0]))
+			case "fp.neg", "fp.abs":
+				e = fmt.Sprintf("(fp.to_ieee_bv (%s %s))", t.Name, fpv(parts[0]))
+			case "fp.floor":
+				e = fmt.Sprintf("(fp.to_ieee_bv (fp.roundToIntegral RTN %s))", fpv(parts[0]))
+			case "fp.ceil":
+				e = fmt.Sprintf("(fp.to_ieee_bv (fp.roundToIntegral RTP %s))", fpv(parts[0]))
+			case "fp.trunc":
+				e = fmt.Sprintf("(fp.to_ieee_bv (fp.roundToIntegral RTZ %s))", fpv(parts[0]))
+			case "fp.u2f":
+				e = fmt.Sprintf("(fp.to_ieee_bv ((_ to_fp_unsigned 11 53) RNE %s))", parts[0])
+			case "fp.s2f":
+				e = fmt.Sprintf("(fp.to_ieee_bv ((_ to_fp 11 53) RNE %s))", parts[0])
+			case "fp.f2u":
+				e = fmt.Sprintf("((_ fp.to_ubv 64) RTZ %s)", fpv(parts[0]))
+			case "fp.f2s":
+				e = fmt.Sprintf("((_ fp.to_sbv 64) RTZ %s)", fpv(parts[0]))
+			case "fp.lt":
+				e = fmt.Sprintf("(fp.lt %s %s)", fpv(parts[0]), fpv(parts[1]))
+			case "fp.le":
+				e = fmt.Sprintf("(fp.leq %s %s)", fpv(parts[0]), fpv(parts[1]))
+			case "fp.eq":
+				e = fmt.Sprintf("(fp.eq %s %s)", fpv(parts[0]), fpv(parts[1]))
+			default:
+				panic("fp op " + t.Name)
+			}
 		case "uf":
 			if !s.declared["uf:"+t.Name] {
 				s.declared["uf:"+t.Name] = true
